@@ -72,6 +72,13 @@ Definition by_height_range (s : store) (h : Z) (count : option Z) : list row :=
   let c := match count with Some c => c | None => 1 end in
   idx_sort (filter (in_range h (window_end h c)) (rev s)).
 
+(* the proposed repair (build/proposed-fixes/C04-2.diff): a count <= 0 is the empty window, and an end that does not fit
+   a 64-bit int saturates (the window is open-ended) *)
+Definition window_end_fixed (h c : Z) : Z := Z.min (h + c - 1) (two63 - 1).
+Definition by_height_range_fixed (s : store) (h : Z) (count : option Z) : list row :=
+  let c := match count with Some c => c | None => 1 end in
+  if c <=? 0 then [] else idx_sort (filter (in_range h (window_end_fixed h c)) (rev s)).
+
 (* ------------------------------------------------------------------ tips *)
 (* sqlSelectTips: mainTip = the LONGEST_CHAIN row of maximal height (ORDER BY height DESC LIMIT 1)
    UNION every non-LONGEST_CHAIN row whose hash is not the previous_block of a non-LONGEST_CHAIN row.
